@@ -71,6 +71,21 @@ def path_shapes():
     P.append(('path-repeat-lines', lambda k: sp.Path(sp.Line(0j, 100 * k), sp.Line(100 * k, 0j), sp.Line(0j, 100 * k)), True))
     P.append(('path-repeat-cubic', lambda k: sp.Path(sp.CubicBezier(0j, (1 + 2j) * k, (2 + 4j) * k, (3 + 6j) * k), sp.Line((3 + 6j) * k, 0j),
                                                       sp.CubicBezier(0j, (1 + 2j) * k, (2 + 4j) * k, (3 + 6j) * k)), True))
+    # generic coordinates (non-dyadic): the running sum of the segment lengths rounds, which matters for s exactly on a joint
+    def generic(seed):
+        def mk(k):
+            r = random.Random(seed)
+            z = lambda a: complex(r.uniform(-a, a), r.uniform(-a, a)) * k
+            pos, segs = z(5), []
+            for _ in range(4):
+                e = pos + z(5)
+                kind = r.choice('LQC')
+                segs.append(sp.Line(pos, e) if kind == 'L' else sp.QuadraticBezier(pos, pos + z(3), e) if kind == 'Q' else sp.CubicBezier(pos, pos + z(3), e + z(3), e))
+                pos = e
+            return sp.Path(*segs)
+        return mk
+    for seed in (3, 4, 5, 6):
+        P.append(('path-generic-%d' % seed, generic(seed), False))
     return P
 
 
@@ -219,6 +234,20 @@ def run(ck):
                         elif f in (0.0, 1.0):
                             traces.append([{'e': 'short', 'bits': bits_of(r), 'cmp': 0, 'within': False, 's0': f == 0.0}])
                             tmeta.append(case)
+                    # s exactly on (and one float either side of) every joint of a path
+                    if isinstance(curve, sp.Path) and scipy_on:
+                        c = 0.0
+                        for sg in list(curve)[:-1]:
+                            c += sg.length()
+                            for s in (c, math.nextafter(c, 0.0), math.nextafter(c, 2 * L)):
+                                if not 0 <= s <= L:
+                                    continue
+                                out, probes = run_recorded(curve, s, {})
+                                ck.case(fp=(name, k, 'joint', s, scipy_on), nontrivial=True)
+                                if out[0] != 'ok' or not (0 <= out[1] <= 1) or not (abs(curve.length(0, out[1]) - s) <= max(1e-12, 1e-11 * L)):
+                                    ck.disagree(key='inv_arclength/at-a-joint-of-a-path', site='svgpathtools/path.py:inv_arclength',
+                                                what='%s scale %g: ilength(%r), s on a joint (L=%r): %s' % (name, k, s, L, out), case={'shape': name, 'scale': k, 's': s},
+                                                expected='a parameter whose arc length is s', observed=str(out), driver='runs')
                     # outside [0, L]
                     for s in (-1e-9 * L - 1e-300, L * (1 + 1e-9), -L, 2 * L):
                         out, _ = run_recorded(curve, s, {})
